@@ -1,7 +1,7 @@
 from __future__ import annotations
 import zlib
 from ..rfc7516.models import JWEZipModel
-from ..errors import ExceededSizeError
+from ..errors import ExceededSizeError, DecodeError
 
 GZIP_HEAD = bytes([120, 156])
 MAX_SIZE = 250 * 1024
@@ -24,10 +24,14 @@ class DeflateZipModel(JWEZipModel):
             decompressor = zlib.decompressobj()
         else:
             decompressor = zlib.decompressobj(-zlib.MAX_WBITS)
-        value = decompressor.decompress(s, MAX_SIZE)
-        # zlib may hold pending output although all input was consumed (empty ``unconsumed_tail``):
-        # probe for one more octet so that an over-long plaintext is never returned truncated
-        if decompressor.unconsumed_tail or (len(value) == MAX_SIZE and decompressor.decompress(b"", 1)):
+        try:
+            value = decompressor.decompress(s, MAX_SIZE)
+            # zlib may hold pending output although all input was consumed (empty ``unconsumed_tail``):
+            # probe for one more octet so that an over-long plaintext is never returned truncated
+            exceeded = decompressor.unconsumed_tail or (len(value) == MAX_SIZE and decompressor.decompress(b"", 1))
+        except zlib.error as error:
+            raise DecodeError(f"Invalid compressed data: {error}")
+        if exceeded:
             raise ExceededSizeError(f"Decompressed string exceeds {MAX_SIZE} bytes")
         return value
 
